@@ -156,13 +156,27 @@ def signer_lifecycles(ctx):
     depth = ctx.pick(3, 4)
     seen = set()
 
-    def lifecycle(name, make, ops, kills):
-        alphabet = list(ops) + list(kills)
+    from btclib.curves import curve as _curve
+
+    def lifecycle(name, make, ops, kills, expect=None, flips=False):
+        alphabet = list(ops) + list(kills) + (["flip-backend"] if flips else [])
         for d in range(1, depth + 1):
             for seq in itertools.product(alphabet, repeat=d):
+                was = _curve.is_libsecp256k1_serving()
+                try:
+                    _one_sequence(name, make, ops, kills, expect, seq)
+                finally:
+                    _curve.set_libsecp256k1_serving(serving=was)
+
+    def _one_sequence(name, make, ops, kills, expect, seq):
                 obj = make()
                 dead = False
                 for op in seq:
+                    if op == "flip-backend":
+                        # the backend switched under a live object: what it answers afterwards is what it answered before
+                        _curve.set_libsecp256k1_serving(serving=not _curve.is_libsecp256k1_serving())
+                        st.transitions += 1
+                        continue
                     st.transitions += 1
                     st.evals += 1
                     if op in kills:
@@ -175,6 +189,8 @@ def signer_lifecycles(ctx):
                     try:
                         r = ops[op](obj)
                         ok = r is not None
+                        if ok and expect and op in expect and bytes(r) != expect[op]:
+                            st.violation(f"C20/signer-lifecycle/{name}.{op}@answer-depends-on-history", {"sequence": seq, "op": op}, bytes(r).hex()[:24], expect[op].hex()[:24])
                     except errs:
                         ok = False
                     except Exception as e:  # noqa: BLE001
@@ -189,12 +205,14 @@ def signer_lifecycles(ctx):
                     st.nontrivial += 1
                 st.outcomes[(name, dead)] += 1
 
+    exp_dsa = {"sign_": dsa.sign_(mh, 5).serialize(), "sign": dsa.sign(b"x", 5).serialize()}
+    exp_ssa = {"sign_": ssa.sign_(mh, 5, bytes(32)).serialize(), "sign": ssa.sign(b"x", 5, bytes(32)).serialize()}
     for serving in (True, False):
         with backend(serving):
             lifecycle(f"dsa.Signer[bindings={serving}]", lambda: dsa.Signer(5), {"sign_": lambda s: s.sign_(mh), "sign": lambda s: s.sign(b"x")},
-                      {"wipe": lambda s: s.wipe(), "__exit__": lambda s: s.__exit__(None, None, None)})
+                      {"wipe": lambda s: s.wipe(), "__exit__": lambda s: s.__exit__(None, None, None)}, exp_dsa, flips=True)
             lifecycle(f"ssa.Signer[bindings={serving}]", lambda: ssa.Signer(5), {"sign_": lambda s: s.sign_(mh, bytes(32)), "sign": lambda s: s.sign(b"x", bytes(32))},
-                      {"wipe": lambda s: s.wipe(), "__exit__": lambda s: s.__exit__(None, None, None)})
+                      {"wipe": lambda s: s.wipe(), "__exit__": lambda s: s.__exit__(None, None, None)}, exp_ssa, flips=True)
     lifecycle("dsa.Signer[toy-curve]", lambda: dsa.Signer(5, toy), {"sign_": lambda s: s.sign_(mh)}, {"wipe": lambda s: s.wipe()})
     lifecycle("ssa.Signer[toy-curve]", lambda: ssa.Signer(5, toy), {"sign_": lambda s: s.sign_(mh, bytes(32))}, {"wipe": lambda s: s.wipe()})
     lifecycle("SoftwareSigner", lambda: SoftwareSigner(x), {
